@@ -391,7 +391,7 @@ func splitterOpAllowed(kind string, in ssa.Instruction) bool {
 	switch kind {
 	case "call:(*regexp.Regexp).FindStringSubmatch", "convert:string->[]rune", "convert:[]rune->string", "convert:rune->string", "binop:+":
 		return true
-	case "call:strings.TrimPrefix":
+	case "call:strings.TrimPrefix", "call:strings.CutPrefix":
 		c := in.(*ssa.Call)
 		s, ok := constString(c.Call.Args[1])
 		return ok && (s == "=" || s == ":")
